@@ -20,7 +20,12 @@ def snake(s):
 
 
 def type_ident(name):
-    return name + "_" if name == "Self" else name
+    # the generator re-cases type names to UpperCamel (heck): runs of capitals become one word (HTTPUpstreamError -> HttpUpstreamError)
+    if name == "Self":
+        return "Self_"
+    t = re.sub(r"([A-Z]+)([A-Z][a-z])", r"\1_\2", name)
+    t = re.sub(r"([a-z0-9])([A-Z])", r"\1_\2", t)
+    return "".join(w[:1].upper() + w[1:].lower() for w in t.split("_") if w)
 
 
 def module_path(pkg, strip):
